@@ -74,3 +74,19 @@ Theorem C02_auer_regenerated : forall A st i, wf_state st ->
      au_dom (a_center A i) (a_center A j) (a_beta A i) (a_beta A j) = true).
 Proof. intros A st i Hw. rewrite auer_round_refines. exact (au_eliminated_iff (a_dom A) (a_cov A) (a_hold A) st i Hw). Qed.
 Print Assumptions C02_auer_regenerated.
+
+(* every witness of an elimination has a region that was rebuilt in this round's modeling(): the witness sets of the
+   regenerated discarding steps lie inside the regenerated modeled sets (S ∪ U for the PaVeBa family, S ∪ P for VOGP /
+   eps-PAL / VOGP_AD, whose witnesses are the pessimistic designs) *)
+Theorem C02_witness_regions_are_rebuilt_this_round : forall E S P U j,
+  (paveba_modeled S P U = union S U /\ paveba_gp_modeled S P U = union S U /\ paveba_partial_gp_modeled S P U = union S U) /\
+  (In j (vogp_compute_pessimistic_set E S P U) -> In j (vogp_modeled S P U)) /\
+  (In j (epal_compute_pessimistic_set E S P U) -> In j (epal_modeled S P U)) /\
+  (In j (vogp_ad_compute_pessimistic_set E S P U) -> In j (vogp_ad_modeled S P U)).
+Proof.
+  intros E S P U j. split; [repeat split|].
+  assert (H : forall l, In j (vg_pessimistic (pess E) S P) -> l = union S P -> In j l).
+  { intros l Hj ->. unfold vg_pessimistic in Hj. apply filter_In in Hj. exact (proj1 Hj). }
+  split; [|split]; intros Hj; apply (H _ Hj); reflexivity.
+Qed.
+Print Assumptions C02_witness_regions_are_rebuilt_this_round.
